@@ -572,3 +572,4 @@ MANIFEST = {
     "Histories longer than the depth bound and strings outside the probe alphabets are not explored.",
     "ref": "DESIGN.md §4 C08",
 }
+MANIFEST["text"] += ' A reading of the whole string (name, symbol, alias, prefixed) is preferred over a plural reading.'
